@@ -96,6 +96,45 @@ class Instant:
     def __init__(s, t): s.t = t          # nanoseconds (Int)
 class Duration:
     def __init__(s, t): s.t = t          # nanoseconds (Int)
+class FSpec:
+    """a non-finite f64 value: 'nan' | 'inf' | '-inf' (finite floats are exact reals)"""
+    __slots__ = ('kind',)
+    def __init__(s, kind): s.kind = kind
+    def __repr__(s): return f"f64::{s.kind}"
+NAN = FSpec('nan'); PINF = FSpec('inf'); NINF = FSpec('-inf')
+
+
+def fspec_binop(ctx, op, a, b):
+    """IEEE-754 arithmetic / comparison with a non-finite operand (the finite operand is an exact real or a Python number)"""
+    an = isinstance(a, FSpec) and a.kind == 'nan'; bn = isinstance(b, FSpec) and b.kind == 'nan'
+    cmp_ops = ('Lt', 'Le', 'Gt', 'Ge', 'Eq', 'Ne')
+    if an or bn: return (op == 'Ne') if op in cmp_ops else NAN
+    def sgn(x):        # +1 / -1 / 0 of a finite value (forks on symbolic values)
+        if isinstance(x, FSpec): return 1 if x.kind == 'inf' else -1
+        if isinstance(x, (int, float)): return (x > 0) - (x < 0)
+        return [0, 1, -1][ctx.choose([x == 0, x > 0, x < 0])]
+    ai = isinstance(a, FSpec); bi = isinstance(b, FSpec)
+    if op in cmp_ops:
+        va = (2 if a.kind == 'inf' else -2) if ai else 0; vb = (2 if b.kind == 'inf' else -2) if bi else 0
+        return {'Lt': va < vb, 'Le': va <= vb, 'Gt': va > vb, 'Ge': va >= vb, 'Eq': va == vb, 'Ne': va != vb}[op]
+    if op in ('Add', 'Sub'):
+        sb = sgn(b) if bi else 0
+        if op == 'Sub': sb = -sb
+        sa = sgn(a) if ai else 0
+        if ai and bi: return NAN if sa != sb else (PINF if sa > 0 else NINF)
+        t = sa if ai else sb
+        return PINF if t > 0 else NINF
+    if op == 'Mul':
+        t = sgn(a) * sgn(b)
+        return NAN if t == 0 else (PINF if t > 0 else NINF)
+    if op == 'Div':
+        if ai and bi: return NAN
+        if bi: return z3.RealVal(0)
+        t = sgn(a) * sgn(b)
+        return PINF if t > 0 else NINF          # inf / 0 keeps the sign of inf (divisor +0.0)
+    raise Unsupported('float operation ' + op + ' on a non-finite value')
+
+
 class Opaque:
     def __init__(s, what): s.what = what
     def __repr__(s): return f"Opaque({s.what})"
@@ -818,9 +857,15 @@ class Interp:
             q = ctx.fresh_int('fdiv'); qr = z3.ToReal(q)
             ctx.add(z3.And(qr * b <= a, a < (qr + 1) * b) if True else True)
             return qr if op == 'Div' else a - qr * b
+        if isinstance(a, FSpec) or isinstance(b, FSpec): return fspec_binop(ctx, op, a, b)
         if is_real(a) or is_real(b):
             a = to_real(a); b = to_real(b)
-            if op == 'Div': return a / b
+            if op == 'Div':
+                # f64 division: x / 0.0 is not a panic but +-inf, and 0.0 / 0.0 is NaN
+                bz = simp(b == 0)
+                if bz is not False and ctx.feasible(bz) and ctx.branch(bz):
+                    return [NAN, PINF, NINF][ctx.choose([a == 0, a > 0, a < 0])]
+                return a / b
             return {'Mul': lambda: a * b, 'Sub': lambda: a - b, 'Add': lambda: a + b, 'Lt': lambda: a < b, 'Gt': lambda: a > b,
                     'Le': lambda: a <= b, 'Ge': lambda: a >= b, 'Eq': lambda: a == b, 'Ne': lambda: a != b}[op]()
         if isinstance(a, Agg) or isinstance(b, Agg):
